@@ -118,7 +118,7 @@ async fn start(root: &ctx::Ctx, engine: &StoreEngine) -> Incarnation {
     Incarnation { manager, stop: Some(stop_tx), runner: handle }
 }
 
-async fn run(trace: &str, report: &str, seed: u64, steps: u64, maxn: u64, bulk: bool) {
+async fn run(trace: &str, report: &str, seed: u64, steps: u64, maxn: u64, bulk: bool, burst0: bool) {
     let clock = ctx::ManualClock::new();
     let root = ctx::test_root(&clock);
     let c = Committee::new(&[1], 3);
@@ -151,19 +151,21 @@ async fn run(trace: &str, report: &str, seed: u64, steps: u64, maxn: u64, bulk: 
     for _ in 0..steps {
         // bulk profile: long in-order runs with lagging persistence and no restarts, so that the in-memory cache crosses
         // its capacity with unpersisted blocks in it
-        let x = if bulk { let y = rng.gen_range(0..100); if y < 80 { 0 } else if y < 97 { 50 } else { 72 } } else { rng.gen_range(0..100) };
         let q = inc.manager.queued();
         let qn = q.next().0;
+        // burst0 profile: the store is EMPTY (nothing durable yet, first block 0) while more blocks than the cache capacity are queued in order
+        let burst_phase = burst0 && qn < 135 && engine.0.persisted.borrow().last.is_none();
+        let x = if burst_phase { 0 } else if bulk { let y = rng.gen_range(0..100); if y < 80 { 0 } else if y < 97 { 50 } else { 72 } } else { rng.gen_range(0..100) };
         if x < 45 {
             // offer a block: mostly around the head of the queue, sometimes far ahead / behind, sometimes invalid or conflicting
-            let n = match if bulk { rng.gen_range(0..12).min(9) % 10 } else { rng.gen_range(0..10) } {
+            let n = if burst_phase { qn } else { match if bulk { rng.gen_range(0..12).min(9) % 10 } else { rng.gen_range(0..10) } {
                 0..=4 => qn,
                 5 | 6 => qn + rng.gen_range(1..3),
                 7 => qn.saturating_sub(rng.gen_range(1..3)),
                 _ => rng.gen_range(0..=maxn),
             }
-            .min(maxn);
-            let id = match rng.gen_range(0..10) { 0..=5 => 1, 6 | 7 => 2, _ => 9 };
+            .min(maxn) };
+            let id = if burst_phase { 1 } else { match rng.gen_range(0..10) { 0..=5 => 1, 6 | 7 => 2, _ => 9 } };
             next_call += 1;
             let cid = next_call;
             calls.lock().unwrap().insert(cid, (n, id));
@@ -292,8 +294,9 @@ fn main() {
     let a = args();
     let rt = tokio::runtime::Builder::new_current_thread().enable_all().build().unwrap();
     let (seed, steps, maxn) = (a[2].parse().unwrap(), a[3].parse().unwrap(), a[4].parse().unwrap());
-    let bulk = a.get(5).map(|x| x == "bulk").unwrap_or(false);
-    let r = catch(|| rt.block_on(run(&a[0], &a[1], seed, steps, maxn, bulk)));
+    let burst0 = a.get(5).map(|x| x == "burst0").unwrap_or(false);
+    let bulk = burst0 || a.get(5).map(|x| x == "bulk").unwrap_or(false);
+    let r = catch(|| rt.block_on(run(&a[0], &a[1], seed, steps, maxn, bulk, burst0)));
     if let Err(p) = r {
         let mut rep = Report::default();
         rep.fail("panic", format!("panic: {p}"), json!({"seed": seed, "steps": steps}));
